@@ -47,6 +47,8 @@ deriving Repr
 def qcap : Nat := 1024
 def minChan : Nat := 0x4000
 def maxChan : Nat := 0x7FFF
+/-- how many channel numbers there are -/
+def chanCount : Nat := 16384
 def maxTries : Nat := 3
 def bindRefresh : Nat := 300     -- defaultBindingRefreshInterval, seconds
 def bindCheck : Nat := 30        -- defaultBindingCheckInterval, seconds
@@ -119,6 +121,17 @@ def maybeBind (s : State) (b : Bind) (rx : List Rx) : State × List Out :=
 
 def permState (s : State) (ip : IP) : Option Bool := (s.perms.find? (fun p => p.1 == ip)).map (·.2)
 
+/-- the binding `WriteTo` uses for `peer`: the existing one, a new one with the next number, or none when every number
+    is held (bindings are never given up) -/
+def bindFor (s : State) (peer : Addr) : Option (State × Bind) :=
+  match findBind s peer with
+  | some b => some (s, b)
+  | none =>
+    if s.binds.length < chanCount then
+      some ({ s with binds := s.binds ++ [⟨peer, s.next, .idle, s.now, false⟩], next := nextNum s.next },
+            ⟨peer, s.next, .idle, s.now, false⟩)
+    else none
+
 /-- `UDPConn.WriteTo` -/
 def writeTo (s : State) (peer : Addr) (data : Bytes) (permRx bindRx : List Rx) : State × List Out :=
   if s.closed then (s, [.writeErr "closed"])
@@ -131,16 +144,15 @@ def writeTo (s : State) (peer : Addr) (data : Bytes) (permRx bindRx : List Rx) :
       let s1 := if needPerm then
           { s with perms := (peer.ip, true) :: s.perms.filter (fun p => !(p.1 == peer.ip)), permOK := peer.ip :: s.permOK }
         else s
-      -- binding for the peer's transport address
-      let (s2, b) := match findBind s1 peer with
-        | some b => (s1, b)
-        | none =>
-          let b : Bind := ⟨peer, s1.next, .idle, s1.now, false⟩
-          ({ s1 with binds := s1.binds ++ [b], next := nextNum s1.next }, b)
-      if b.st.isOk then (s2, pr.1 ++ [.chanData b.num data, .wrote data.length])
-      else
-        let m := maybeBind s2 b bindRx
-        (m.1, pr.1 ++ m.2 ++ [.sendInd peer data, .wrote data.length])
+      -- binding for the peer's transport address; bindings are never given up, so once all `chanCount` numbers are
+      -- held a new peer gets none and is served with Send indications for good
+      match bindFor s1 peer with
+      | some (s2, b) =>
+        if b.st.isOk then (s2, pr.1 ++ [.chanData b.num data, .wrote data.length])
+        else
+          let m := maybeBind s2 b bindRx
+          (m.1, pr.1 ++ m.2 ++ [.sendInd peer data, .wrote data.length])
+      | none => (s1, pr.1 ++ [.sendInd peer data, .wrote data.length])
     | e =>
       -- the permission entry is forgotten again; nothing is sent toward the peer
       ({ s with perms := s.perms.filter (fun p => !(p.1 == peer.ip)) },
